@@ -7,3 +7,22 @@ package handlers
 //@ type baseHandler invariant [made] self.done != nil && self.commands != nil
 //@ type MaprHandler invariant [aggregate] self.aggregate != nil
 
+
+// ---- deframing (C01 S5, C07) -------------------------------------------------------------------
+// g_dispStr: the messages handed to handleMessage so far, each followed by the
+// record separator 0x1e. Write splits the byte stream at 0xAC (dropped) and
+// after "\n" (kept) whatever the chunking of p is: the state between chunks is
+// receiveBuf. g_printedStr: what was passed to dlog.Client.Raw.
+//@ func (*baseHandler).handleMessage
+//@   assigns g_dispStr, g_printedStr, *h.done
+//@   effect g_dispStr == old(g_dispStr) + message + "\x1e"
+//@   ensures [printed-unless-hidden] g_printedStr == old(g_printedStr) + ite(len(message) > 0 && message[0] == 46, "", message)
+//@ func (*baseHandler).handleHiddenMessage
+//@   assigns *h.done
+//@ func (*baseHandler).Write
+//@   requires [buffer-has-no-delimiter] !contains(h.receiveBuf.content, "\n") && !contains(h.receiveBuf.content, "\xac")
+//@   ghost-init g_dispStr == ""
+//@   loop 1 invariant [framed] g_dispStr + h.receiveBuf.content == old(h.receiveBuf.content) + frame(str(p[0:rangeindex+1]))
+//@   loop 1 invariant [buffer-has-no-delimiter] !contains(h.receiveBuf.content, "\n") && !contains(h.receiveBuf.content, "\xac") && -1 <= rangeindex && rangeindex < len(p)
+//@   ensures [all-consumed] n == len(p) && isnil(err)
+//@   ensures [framed] g_dispStr + h.receiveBuf.content == old(h.receiveBuf.content) + frame(str(p))
